@@ -87,6 +87,11 @@ class StringDiscretizer(BaseDiscretizer):
             else:
                 # currently known order (only with strings)
                 known_order = self.values_orders[feature]
+                assert all(isinstance(value, str) for value in known_order.values()), (
+                    f" - [StringDiscretizer] Feature '{feature}' is not of type str: its values will"
+                    " be converted to strings, provide values_orders with the string form of its "
+                    f"values (found {[v for v in known_order.values() if not isinstance(v, str)]})."
+                )
                 for str_value, raw_values in values_order.content.items():
                     # known string value (possibly grouped within another one): adding raw values to its group
                     if known_order.contains(str_value):
